@@ -515,7 +515,7 @@ def run():
             auto, nmeth = discover()
             with open(apath, "w") as fh:
                 json.dump(auto, fh)
-            progs, st = common.tlc_eval_json("Dump_Api", env={"DIMS": dpath, "AUTO": apath}, timeout=900)
+            progs, st = common.tlc_eval_json("Dump_Api", env={"DIMS": dpath, "AUTO": apath}, timeout=3000)
             curated = [p for p in progs if ":" not in p["name"] and p["name"] != "columns"]
             autos = [p for p in progs if ":" in p["name"]]
             colps = [p for p in progs if p["name"] == "columns"]
